@@ -32,6 +32,11 @@ def run(tier):
     allb = gen["replay"]
     thin = [b for b in allb if any(s["op"] == "reopen" and s["flen"] <= 24 for s in b["steps"])]
     rest = [b for b in allb if b not in thin]
+    # ---- GEN 1b: one write between two restarts, every such sequence of length 4 (complete)
+    single = vlib.tlc_mc("RaftMeta.tla", "GEN_RaftMeta_single.cfg", workers=4, name="c05_gen_single", collect_replay=True)["replay"]
+    if len(single) < 100:
+        raise ToolError("too few single-write-between-restarts behaviours: %d" % len(single))
+    c.cov["single_write_between_restarts_behaviours"] = len(single)
     rnd = random.Random(c.seed)
     rnd.shuffle(rest)
     chosen = thin + rest[: (150 if quick else len(rest))]
@@ -55,7 +60,7 @@ def run(tier):
     c.cov["behaviours_with_a_change_between_two_compactions"] = sum(1 for b in simk if two_compactions_around_a_change(b))
     if c.cov["behaviours_with_a_change_between_two_compactions"] < 20:
         raise ToolError("kind-first simulation produced too few compaction / change / compaction behaviours")
-    beh = chosen + sim + simk
+    beh = chosen + single + sim + simk
     bf = vlib.write_ndjson(os.path.join(sc, "beh.ndjson"), beh)
     res = vlib.harness(["replay", "meta", bf, "--jobs", 8], timeout=3000)
     summ = [r for r in res if r.get("kind") == "summary"][0]
@@ -77,7 +82,7 @@ def run(tier):
     return c.finish(
         rule="behaviours = all length-3 sequences over {save-hard-state, members, node-addr, catalogue-log, "
              "catalogue-snapshot, reopen} of a small alphabet (behaviours whose reopen meets an index file of <= 24 bytes "
-             "first, seeded sample of the rest in quick tier) + TLC-simulated 9-step sequences over 4 nodes + kind-first simulated 12-step sequences (compactions and reopens as frequent as the parameter-rich kinds; those with a membership / address change between two compactions first); replayed on "
+             "first, seeded sample of the rest in quick tier) + ALL length-4 sequences with exactly one write between two restarts + TLC-simulated 9-step sequences over 4 nodes + kind-first simulated 12-step sequences (compactions and reopens as frequent as the parameter-rich kinds; those with a membership / address change between two compactions first); replayed on "
              "FileStore on a mini node (reopen = new process), get_initial_state / get_membership_config / "
              "get_target_addr compared after every step; non-trivial = contains a reopen",
         checker_cmd="tools/vcheck C05 --tier %s" % tier)
